@@ -205,8 +205,17 @@ def run_case(desc, ctx):
     ctx.cls("singularities_given_as:" + form)
     sing_arg = {"list": lambda: list(singus), "set": lambda: set(singus), "tuple": lambda: tuple(singus), "ndarray": lambda: np.array(singus, dtype=np.int64),
                 "generator": lambda: (x for x in list(singus)), "iterator": lambda: iter(list(singus))}[form]()
-    ok, cutter = ctx.call("SingularityCutter", lambda: M.processing.SingularityCutter(m, sing_arg, features=feat, verbose=False), monitor="faces")
-    ok, _ = ctx.call("run", cutter.run, monitor="faces")
+    # the reporting switch must not change what is computed: a third of the cases run with verbose=True (its output is discarded)
+    verbose = desc["seed"] % 3 == 1
+    if verbose:
+        ctx.cls("option:verbose=True")
+    ok, cutter = ctx.call("SingularityCutter", lambda: M.processing.SingularityCutter(m, sing_arg, features=feat, verbose=verbose), monitor="faces")
+    if verbose:
+        import contextlib, io
+        with contextlib.redirect_stdout(io.StringIO()):
+            ok, _ = ctx.call("run", cutter.run, monitor="faces")
+    else:
+        ok, _ = ctx.call("run", cutter.run, monitor="faces")
     ok, out = ctx.call("output_mesh", lambda: cutter.output_mesh, monitor="faces")
     edges = build.edges_list(m)
     try:
